@@ -7,6 +7,8 @@ VERIF = os.path.dirname(os.path.dirname(os.path.abspath(__file__)))
 
 def seeded_table():
     rows = []
+    sp = os.path.join(VERIF, 'seeded', 'STRENGTHENED.json')
+    strengthened = json.load(open(sp))['ids'] if os.path.exists(sp) else {}
     for d in sorted(glob.glob(os.path.join(VERIF, 'seeded', '*'))):
         mp = os.path.join(d, 'meta.json')
         if not os.path.exists(mp):
@@ -25,8 +27,8 @@ def seeded_table():
                         oracle = mm.group(1)
                         break
                 how = f'caught by {p} ({oracle})'
-                if first['exit'] != 1:
-                    how += ' after the check was strengthened'
+                if first['exit'] != 1 or m['id'] in strengthened:
+                    how += ' after the check was strengthened' + (f" ({strengthened[m['id']]})" if m['id'] in strengthened else '')
             else:
                 how = f'**missed** by {p} (exit {last["exit"]})'
             cells.append(how)
